@@ -66,7 +66,11 @@ func customRoutes(cfg *config.Custom, ch chan string) {
 		}
 		log.Printf("[DEBUG] Custom Registry begin decoding json %s \n", time.Now())
 		decoder := json.NewDecoder(resp.Body)
-		err = decoder.Decode(&Routes)
+		// decode into a fresh value: a 'null' document must not leave a nil
+		// pointer behind and fields of a previous response must not leak
+		// into definitions which omit them
+		Routes = &[]route.RouteDef{}
+		err = decoder.Decode(Routes)
 		if err != nil {
 			ch <- fmt.Sprintf("Error decoding request - %s -%s", URL, err.Error())
 			time.Sleep(cfg.PollInterval)
